@@ -143,9 +143,16 @@ def manufacture(rng, alg):
         N = int(rng.integers(1, 4))
         # x* must be compatible with non-negativity constraints: use identity-like operators for those
         gs = [gen_g(rng) for _ in range(N)]
+        circ = bool(rng.integers(0, 3) == 0)  # shift-invariant constraints -> CircularConvolveSolver
         Cs = []
         for g in gs:
-            Cs.append({"t": "id"} if g["k"] == "nonneg" else gen_lin(rng, n))
+            if g["k"] == "nonneg":
+                Cs.append({"t": "id"})
+            elif circ:
+                Cs.append(_P(rng, [{"t": "id"}, {"t": "sid", "s": _P(rng, [0.5, 2.0, -1.0])},
+                                   {"t": "fd", "axes": 0, "circular": True, "append": None}]))
+            else:
+                Cs.append(gen_lin(rng, n))
         xs = point_for(rng, {"k": "nonneg"} if any(g["k"] == "nonneg" for g in gs) else {"k": "l1"}, n)
         Ms = [G.op_dense(c, [n])[0] for c in Cs]
         zs = [M @ xs for M in Ms]
@@ -153,10 +160,13 @@ def manufacture(rng, alg):
         if any(y is None for y in ys):
             return None
         rho = [_P(rng, [0.5, 1.0, 2.0, 4.0]) for _ in range(N)]
-        y0 = xs + sum(M.T @ y for M, y in zip(Ms, ys))
+        sc = _P(rng, [0.5, 0.5, 1.0, 2.0, 0.25])  # f = sc * ||x - y0||^2 : grad = 2 sc (x - y0)
+        y0 = xs + sum(M.T @ y for M, y in zip(Ms, ys)) / (2.0 * sc)
         alpha = _P(rng, [1.0, 1.0, 1.5, 0.5, 1.75])
-        recipe = {"alg": "admm", "cplx": False, "xshape": [n], "C": Cs, "g": gs, "f": half_loss(y0), "rho": rho,
-                  "alpha": alpha, "solver": _P(rng, ["linear", "linear-jax"]), "x0": xs.tolist()}
+        f = half_loss(y0)
+        f["s"] = sc
+        recipe = {"alg": "admm", "cplx": False, "xshape": [n], "C": Cs, "g": gs, "f": f, "rho": rho,
+                  "alpha": alpha, "solver": "circ" if circ else _P(rng, ["linear", "linear-jax"]), "x0": xs.tolist()}
         us = [(y / r).tolist() for y, r in zip(ys, rho)]
         kkt = {"x": xs.tolist(), "z": [z.tolist() for z in zs], "zold": [z.tolist() for z in zs], "u": us}
         return recipe, kkt, xs
@@ -234,6 +244,27 @@ def manufacture(rng, alg):
                   "z0": zs.tolist(), "u0": u}
         kkt = {"x": xs.tolist(), "z": zs.tolist(), "zold": zs.tolist(), "u": u, "uold": u}
         return recipe, kkt, xs
+    if alg == "pdhg" and rng.integers(0, 6) == 0:
+        # complex data, holomorphic non-linear C(x) = Mx + q (Px)^2 : the conjugate-transposed Jacobian enters the KKT system
+        m = int(rng.integers(2, 4))
+        cd = lambda sh, b, sc: G.dy(rng, sh, b, sc) + 1j * G.dy(rng, sh, b, sc)  # noqa: E731
+        M, Pm, q, xs = cd((m, n), 2, 1.5), cd((m, n), 1, 1.0), cd((m,), 1, 1.0), cd((n,), 2, 1.0)
+        w = _P(rng, [0.5, 1.0, 0.25])
+        Cx = M @ xs + q * (Pm @ xs) ** 2
+        J = M + (2.0 * q * (Pm @ xs))[:, None] * Pm
+        y = 2.0 * w * Cx
+        y0 = xs + J.conj().T @ y
+        rl = lambda a: G.realify(a, True).tolist()  # noqa: E731
+        rec = {"M": M.real.tolist(), "Mi": M.imag.tolist(), "P": Pm.real.tolist(), "Pi": Pm.imag.tolist(),
+               "q": q.real.tolist(), "qi": q.imag.tolist()}
+        c2 = max(float(np.linalg.norm(J, 2) ** 2), 0.25) * 4
+        tau = _P(rng, [0.5, 0.25])
+        sigma = float(np.floor(0.5 / (tau * c2) * 1024) / 1024) or 1.0 / 1024
+        recipe = {"alg": "pdhg", "cplx": True, "xshape": [n], "C": None, "nl": rec,
+                  "f": {"k": "sqloss", "s": 0.5, "A": None, "yshape": [n], "y": rl(y0)}, "g": {"k": "sql2", "w": w},
+                  "tau": tau, "sigma": sigma, "alpha": _P(rng, [1.0, 0.5]), "x0": rl(xs), "z0": rl(y)}
+        kkt = {"x": rl(xs), "xold": rl(xs), "z": rl(y), "zold": rl(y)}
+        return recipe, kkt, np.asarray(rl(xs))
     if alg == "pdhg":
         nl = bool(rng.integers(0, 3) == 0)
         g = gen_g(rng, ("l1", "sql2", "zero") if nl else ("l1", "sql2", "nonneg", "zero"))
